@@ -67,6 +67,15 @@ type StallCfg struct {
 	SitePct int   `json:"site_pct"` // percentage of sites enabled in this run (swarm)
 	// Focus restricts random stalls to sites whose file:line contains one of these substrings (empty = all).
 	Focus []string `json:"focus,omitempty"`
+	// OneShot: one deliberate stall of Ns at the Nth yield point (counted from 0 over the run) whose
+	// site starts with Prefix (PCT-style: one deep ordering, the rest of the schedule undisturbed).
+	// Applied on top of the random stalls; recorded like them, so replays and minimisation see it
+	// as an ordinary explicit stall.
+	OneShot struct {
+		Prefix string `json:"prefix,omitempty"`
+		Nth    int    `json:"nth,omitempty"`
+		Ns     int64  `json:"ns,omitempty"`
+	} `json:"one_shot,omitempty"`
 	// Tickets are added on top of the random stalls (PCT-style deliberate deep orderings).
 	Tickets []StallPoint `json:"tickets,omitempty"`
 	// Explicit, when UseExplicit is set, replaces random selection entirely (replay / minimise mode).
